@@ -1759,8 +1759,10 @@ impl<'data> TablesData<'data> {
             // ELEMENT_TYPE_GENERICINST
             0x15 => {
                 // type type-arg-count type-1 ... type-n
+                // Every nested type counts toward the recursion limit: otherwise the depth of the
+                // recursion is only bounded by the length of the signature.
                 let generic_type =
-                    self.parse_sig_type(sig, class_gen_params, method_gen_params, rec_level)?;
+                    self.parse_sig_type(sig, class_gen_params, method_gen_params, rec_level + 1)?;
                 let count = read_encoded_uint(sig)?;
                 if count > MAX_GEN_PARAM_COUNT {
                     return None;
@@ -1777,7 +1779,7 @@ impl<'data> TablesData<'data> {
                         sig,
                         class_gen_params,
                         method_gen_params,
-                        rec_level,
+                        rec_level + 1,
                     )?);
                 }
                 res.push(b'>');
@@ -1821,7 +1823,7 @@ impl<'data> TablesData<'data> {
             // ELEMENT_TYPE_SZARRAY
             0x1d => {
                 let inner_type =
-                    self.parse_sig_type(sig, class_gen_params, method_gen_params, rec_level)?;
+                    self.parse_sig_type(sig, class_gen_params, method_gen_params, rec_level + 1)?;
                 let mut res = Vec::new();
                 res.extend(inner_type);
                 res.extend(b"[]");
@@ -1839,7 +1841,7 @@ impl<'data> TablesData<'data> {
             0x1f | 0x20 => {
                 // Ignore the type def or ref index, and return the following type
                 let _index = read_encoded_uint(sig)?;
-                self.parse_sig_type(sig, class_gen_params, method_gen_params, rec_level)
+                self.parse_sig_type(sig, class_gen_params, method_gen_params, rec_level + 1)
             }
             _ => None,
         }
